@@ -66,6 +66,14 @@ func runC07(c *core.Ctx) {
 		c.Nontrivial([]byte("dest"), b)
 		c.Bucket(fmt.Sprintf("dest/sig%d-crypto%d-%v", sig, cr, sh["cert"]))
 		c.Call("Destination accessors", b, func() { checkDest("destination.ReadDestination", &d, b, sh) })
+		// parse from a buffer the caller then reuses: hash and address must not follow the buffer
+		buf := append([]byte{}, b...)
+		if d3, _, err := destination.ReadDestination(buf); err == nil {
+			for k := range buf {
+				buf[k] ^= 0x5a
+			}
+			c.Call("Destination accessors (buffer reused)", b, func() { checkDest("destination.ReadDestination(buffer reused)", &d3, b, sh) })
+		}
 		if cd, ok, err := lib.BuildDestination(m); ok && err == nil {
 			c.Call("Destination accessors (constructed)", b, func() { checkDest("destination.NewDestination", cd, b, sh) })
 			if !d.Equals(cd) || !cd.Equals(&d) {
@@ -159,7 +167,8 @@ func runC07(c *core.Ctx) {
 		sl, _ := rm.SigLen(sig)
 		info.Sig = r.Bytes(sl)
 		ib := info.Encode()
-		pi, _, err := router_info.ReadRouterInfo(ib)
+		buf := append([]byte{}, ib...) // the caller's buffer: reused after parsing
+		pi, _, err := router_info.ReadRouterInfo(buf)
 		if err == nil {
 			h, err := pi.IdentHash()
 			want := sha256.Sum256(b)
@@ -167,6 +176,15 @@ func runC07(c *core.Ctx) {
 				c.Violate("router_info.RouterInfo.IdentHash", "hash-not-sha256-of-bytes", sh, ib, fmt.Sprintf("IdentHash()=%x err=%v expected %x", h, err, want))
 			}
 			c.Bucket("identhash-checked")
+			// the hash is a function of the identity, not of whatever the caller's buffer holds later
+			for k := range buf {
+				buf[k] ^= 0x5a
+			}
+			h2, err := pi.IdentHash()
+			idb, _ := pi.RouterIdentity().Bytes()
+			if err != nil || [32]byte(h2) != sha256.Sum256(idb) || h2 != h {
+				c.Violate("router_info.RouterInfo.IdentHash", "hash-changes-with-callers-buffer", sh, ib, fmt.Sprintf("IdentHash() %x before, %x after the input buffer was reused; SHA-256(identity bytes) = %x", h, h2, sha256.Sum256(idb)))
+			}
 		}
 	})
 
